@@ -32,6 +32,8 @@ def run(chk: Check) -> None:
     run_codes_and_unused(chk, ix)
     run_parser_ignores(chk, ix)
     run_bypass_sites(chk, ix)
+    from .c10 import run_only_once_slot
+    run_only_once_slot(chk, ix, "R13.10")
     aei = ix.func("mypy.errors.Errors.add_error_info")
     g = CFG(aei.node)
 
@@ -243,6 +245,8 @@ def run(chk: Check) -> None:
             return env["N"]
         if t in ("n_notes==len(messages)",):
             return not env["N"]
+        if isinstance(expr, ast.Call) and call_name(expr) == "only_notes" and expr.args and norm(expr.args[0]) == "messages":
+            return not env["N"]  # every message is a note (definition checked below)
         if t == "blockers":
             return env["B"]
         if "install_types" in t or t == "result":
@@ -281,6 +285,16 @@ def run(chk: Check) -> None:
                     rows += 1
                     if env["code"] != want:
                         bad_rows.append(f"messages={M} non-note={N} blockers={B} install-override={I}: code={env['code']} (expected {want})")
+    on = ix.functions.get("mypy.util.only_notes")
+    if on is not None:
+        rets = [norm(r.value) for r in ast.walk(on.node) if isinstance(r, ast.Return) and r.value is not None]
+        want_text = any(x.replace(" ", "") in ("count_stats(messages)[1]==len(messages)", "n_notes==len(messages)") for x in rets)
+        want_json = any("severity" in x and "note" in x and x.startswith("all(") for x in rets)
+        k2 = "util.only_notes: true iff every message is a note, in the text form and in the JSON form"
+        if want_text and want_json and len(rets) == 2:
+            r4.ok(k2, on.loc(), "; ".join(rets)[:120])
+        else:
+            r4.violation(k2, on.loc(), f"the helper the exit status is computed from returns {rets}: not `count_stats(messages)[1] == len(messages)` for text and `all(severity is note)` for JSON lines")
     key = "exit status truth table over (message exists, non-note exists, blockers, install override)"
     if bad_rows:
         r4.violation(key, mn.loc(assigns[0]), "; ".join(bad_rows))
